@@ -65,35 +65,40 @@ variable {α : Type} [Add α] [Sub α] [Mul α] [Div α] [Neg α] [LT α] [Decid
 
 def errName : Err → String
   | .nuUnset => "nuUnset" | .lamUnset => "lamUnset" | .xmaxUnset => "xmaxUnset"
-  | .negative => "negative" | .sumGe1 => "sumGe1"
+  | .negative => "negative" | .sumGe1 => "sumGe1" | .ndimGt2 => "ndimGt2" | .unknownName => "unknownName"
 
 /-- what one request evaluates to: new inner state and one `Option α` per input -/
 abbrev Out (α : Type) := Except String (List α × List (Option α))
 
-/-- how `backward_censored` is evaluated at the carrier: the model's definition at `Float`; at `EF` the same
-values with the bound of a continuous `max` (the larger of the two operands' bounds, whichever is selected) -/
+/-- how `backward_censored` is evaluated at the carrier: the model's own definitions at `Float`
+(`useModel = true`: `backwardCensored`, `State.censoredArr`); at `EF` the same values with the bound of a continuous
+`max` (the larger of the two operands' bounds, whichever is selected) -/
 class Cens (α : Type) where
+  useModel : Bool
   cens : (α → Option α) → (α → Option α) → α → α → Option α
-
-def pick [Cens α] (op : String) (f b j : α → Option α) (censor : Option α) : Option (α → Option α) :=
-  match op, censor with
-  | "fwd", _ => some f
-  | "bwd", _ => some b
-  | "jac", _ => some j
-  | "cens", some c => some fun y => Cens.cens f b y c
-  | _, _ => none
 
 variable [Cens α]
 
+/-- a class without object state: the method on the array is `onArray` of the model -/
 def stateless (op : String) (f b j : α → Option α) (censor : Option α) (xs : List α) : Out α :=
-  match pick op f b j censor with
-  | some g => .ok ([], xs.map g)
-  | none => .error "bad-op"
+  match op, censor with
+  | "fwd", _ => .ok ([], onArray f xs)
+  | "bwd", _ => .ok ([], onArray b xs)
+  | "jac", _ => .ok ([], onArray j xs)
+  | "cens", some c =>
+    if Cens.useModel α then .ok ([], onArray (fun y => backwardCensored f b y c) xs)
+    else .ok ([], onArray (fun y => Cens.cens f b y c) xs)
+  | _, _ => .error "bad-op"
 
-def withBC (op : String) (bc : BoxCox2.Params α) (f b j : α → Option α) (censor : Option α) (xs : List α) : Out α :=
-  match pick op f b j censor with
-  | some g => .ok ([bc.nu, bc.lam], xs.map g)
-  | none => .error "bad-op"
+def ofBC (r : Except Err (BoxCox2.Params α × List (Option α))) : Out α :=
+  match r with
+  | .ok (bc, vs) => .ok ([bc.nu, bc.lam], vs)
+  | .error e => .error (errName e)
+
+def ofPlain (r : Except Err (List (Option α))) : Out α :=
+  match r with
+  | .ok vs => .ok ([], vs)
+  | .error e => .error (errName e)
 
 def run (op cls : String) (ps : List (Option α)) (censor : Option α) (xs : List α) : Out α :=
   match cls, ps with
@@ -111,26 +116,56 @@ def run (op cls : String) (ps : List (Option α)) (censor : Option α) (xs : Lis
     stateless op (BoxCox2.forward p) (BoxCox2.backward p) (BoxCox2.jacobian p) censor xs
   | "BoxCox1lam", [some lam, nu, some mininu, some bnu, some blam] =>
     let s : BoxCox1lam.State α := ⟨lam, nu, ⟨bnu, blam, mininu⟩⟩
-    match BoxCox1lam.State.sync s with
-    | .error e => .error (errName e)
-    | .ok s' => withBC op s'.bc (BoxCox2.forward s'.bc) (BoxCox2.backward s'.bc) (BoxCox2.jacobian s'.bc) censor xs
+    let fin := fun (r : Except Err (BoxCox1lam.State α × List (Option α))) => ofBC (r.map fun (s', vs) => (s'.bc, vs))
+    match op, censor with
+    | "fwd", _ => fin (BoxCox1lam.State.forwardArr s xs)
+    | "bwd", _ => fin (BoxCox1lam.State.backwardArr s xs)
+    | "jac", _ => fin (BoxCox1lam.State.jacobianArr s xs)
+    | "cens", some c =>
+      if Cens.useModel α then fin (BoxCox1lam.State.censoredArr s xs c)
+      else fin ((BoxCox1lam.State.sync s).map fun s' =>
+        (s', onArray (fun y => Cens.cens (BoxCox2.forward s'.bc) (BoxCox2.backward s'.bc) y c) xs))
+    | _, _ => .error "bad-op"
   | "BoxCox1nu", [some nu, lam, some mininu, some bnu, some blam] =>
     let s : BoxCox1nu.State α := ⟨nu, lam, ⟨bnu, blam, mininu⟩⟩
-    match BoxCox1nu.State.sync s with
-    | .error e => .error (errName e)
-    | .ok s' => withBC op s'.bc (BoxCox2.forward s'.bc) (BoxCox2.backward s'.bc) (BoxCox2.jacobian s'.bc) censor xs
+    let fin := fun (r : Except Err (BoxCox1nu.State α × List (Option α))) => ofBC (r.map fun (s', vs) => (s'.bc, vs))
+    match op, censor with
+    | "fwd", _ => fin (BoxCox1nu.State.forwardArr s xs)
+    | "bwd", _ => fin (BoxCox1nu.State.backwardArr s xs)
+    | "jac", _ => fin (BoxCox1nu.State.jacobianArr s xs)
+    | "cens", some c =>
+      if Cens.useModel α then fin (BoxCox1nu.State.censoredArr s xs c)
+      else fin ((BoxCox1nu.State.sync s).map fun s' =>
+        (s', onArray (fun y => Cens.cens (BoxCox2.forward s'.bc) (BoxCox2.backward s'.bc) y c) xs))
+    | _, _ => .error "bad-op"
   | "BoxCox2sym", [some nu, some lam, some mininu, some bnu, some blam] =>
     let s : BoxCox2sym.State α := ⟨nu, lam, ⟨bnu, blam, mininu⟩⟩
-    let s' := BoxCox2sym.State.sync s
-    let p := BoxCox2sym.State.params s'
-    withBC op s'.bc (BoxCox2sym.forward p) (BoxCox2sym.backward p) (BoxCox2sym.jacobian p) censor xs
+    let fin := fun (r : BoxCox2sym.State α × List (Option α)) => (.ok ([r.1.bc.nu, r.1.bc.lam], r.2) : Out α)
+    match op, censor with
+    | "fwd", _ => fin (BoxCox2sym.State.forwardArr s xs)
+    | "bwd", _ => fin (BoxCox2sym.State.backwardArr s xs)
+    | "jac", _ => fin (BoxCox2sym.State.jacobianArr s xs)
+    | "cens", some c =>
+      if Cens.useModel α then fin (BoxCox2sym.State.censoredArr s xs c)
+      else
+        let s' := BoxCox2sym.State.sync s
+        let p := BoxCox2sym.State.params s'
+        fin (s', onArray (fun y => Cens.cens (BoxCox2sym.forward p) (BoxCox2sym.backward p) y c) xs)
+    | _, _ => .error "bad-op"
   | "YeoJohnson", [some nu, some scale, some lam] =>
     let p : YeoJohnson.Params α := ⟨nu, scale, lam⟩
     stateless op (YeoJohnson.forward p) (YeoJohnson.backward p) (YeoJohnson.jacobian p) censor xs
   | "LogSinh", [some loga, some logb, xmax] =>
-    match LogSinh.State.params (⟨loga, logb, xmax⟩ : LogSinh.State α) with
-    | .error e => .error (errName e)
-    | .ok p => stateless op (LogSinh.forward p) (LogSinh.backward p) (LogSinh.jacobian p) censor xs
+    let s : LogSinh.State α := ⟨loga, logb, xmax⟩
+    match op, censor with
+    | "fwd", _ => ofPlain (LogSinh.State.forwardArr s xs)
+    | "bwd", _ => ofPlain (LogSinh.State.backwardArr s xs)
+    | "jac", _ => ofPlain (LogSinh.State.jacobianArr s xs)
+    | "cens", some c =>
+      if Cens.useModel α then ofPlain (LogSinh.State.censoredArr s xs c)
+      else ofPlain ((LogSinh.State.params s).map fun p =>
+        onArray (fun y => Cens.cens (LogSinh.forward p) (LogSinh.backward p) y c) xs)
+    | _, _ => .error "bad-op"
   | "Reciprocal", [some nu, some mininu] =>
     let p : Reciprocal.Params α := ⟨nu, mininu⟩
     stateless op (Reciprocal.forward p) (Reciprocal.backward p) (Reciprocal.jacobian p) censor xs
@@ -138,32 +173,40 @@ def run (op cls : String) (ps : List (Option α)) (censor : Option α) (xs : Lis
     let p : Sinh.Params α := ⟨nu, scale⟩
     stateless op (Sinh.forward p) (Sinh.backward p) (Sinh.jacobian p) censor xs
   | "Manly", [some lam, xmax] =>
-    match Manly.State.params (⟨lam, xmax⟩ : Manly.State α) with
-    | .error e => .error (errName e)
-    | .ok p => stateless op (Manly.forward p) (Manly.backward p) (Manly.jacobian p) censor xs
+    let s : Manly.State α := ⟨lam, xmax⟩
+    match op, censor with
+    | "fwd", _ => ofPlain (Manly.State.forwardArr s xs)
+    | "bwd", _ => ofPlain (Manly.State.backwardArr s xs)
+    | "jac", _ => ofPlain (Manly.State.jacobianArr s xs)
+    | "cens", some c =>
+      if Cens.useModel α then ofPlain (Manly.State.censoredArr s xs c)
+      else ofPlain ((Manly.State.params s).map fun p =>
+        onArray (fun y => Cens.cens (Manly.forward p) (Manly.backward p) y c) xs)
+    | _, _ => .error "bad-op"
   | _, _ => .error "bad-op"
 
-/-- Softmax on a 2-D array: rows of results (jacobian: one value per row, returned as a one-column matrix) -/
-def runSoftmax (op : String) (rows : List (List α)) : Except String (List (List α)) :=
-  match op with
-  | "fwd" => match Softmax.forwardM rows with
-    | .ok r => .ok r
+/-- Softmax on an array of `ndim` dimensions with the given rows (jacobian: one value per row, returned as a
+one-column matrix); a 1-D input (`ndim = 1`, one row) goes through the row-level functions of the model -/
+def runSoftmax (op : String) (ndim : Nat) (rows : List (List α)) : Except String (List (List α)) :=
+  let lift := fun {β : Type} (r : Except Err β) (k : β → List (List α)) => match r with
+    | .ok v => (.ok (k v) : Except String (List (List α)))
     | .error e => .error (errName e)
-  | "bwd" => match Softmax.backwardM rows with
-    | .ok r => .ok r
-    | .error e => .error (errName e)
-  | "jac" => match Softmax.jacobianM rows with
-    | .ok r => .ok (r.map fun v => [v])
-    | .error e => .error (errName e)
-  | _ => .error "bad-op"
+  match ndim, rows, op with
+  | 1, [row], "fwd" => lift (Softmax.forward row) fun r => [r]
+  | 1, [row], "bwd" => lift (Softmax.backward row) fun r => [r]
+  | 1, [row], "jac" => lift (Softmax.jacobian row) fun v => [[v]]
+  | _, _, "fwd" => lift (Softmax.forwardND ndim rows) id
+  | _, _, "bwd" => lift (Softmax.backwardND ndim rows) id
+  | _, _, "jac" => lift (Softmax.jacobianND ndim rows) fun r => r.map fun v => [v]
+  | _, _, _ => .error "bad-op"
 end
 
-instance : Cens Float := ⟨fun f b y c => backwardCensored f b y c⟩
+instance : Cens Float := ⟨true, fun f b y c => backwardCensored f b y c⟩
 
 /-- maximum of two bounds; an undefined bound (NaN) means "no bound" -/
 def fmax (a b : Float) : Float := if a.isNaN || b.isNaN then (1.0 / 0.0) else if a < b then b else a
 
-instance : Cens EF := ⟨fun f b y c =>
+instance : Cens EF := ⟨false, fun f b y c =>
   let te : Float := match f c with
     | some t => if t.v.isNaN then 0.0 else t.e
     | none => 0.0
@@ -212,11 +255,12 @@ def handleScalar (op cls ps xs : String) (censor : Option String) : String :=
     | _, .error e => "err " ++ e
   | _, _, _ => "bad-op"
 
-def handleSoftmax (op rows : String) : String :=
+def handleSoftmax (op nd rows : String) : String :=
+  let ndim : Nat := if nd == "[]" then 2 else ((nd.drop 2).toString.toNat?).getD 2
   match parseFloatMat? rows with
   | some rows =>
-    let rF := runSoftmax (α := Float) op rows
-    let rE := runSoftmax (α := EF) op (rows.map fun r => r.map EF.ofF)
+    let rF := runSoftmax (α := Float) op ndim rows
+    let rE := runSoftmax (α := EF) op ndim (rows.map fun r => r.map EF.ofF)
     match rF, rE with
     | .ok vs, .ok es => s!"ok [] {fmtMatF vs} {fmtMatF (es.map fun r => r.map (·.e))}"
     | .error e, _ => if e == "bad-op" then e else "err " ++ e
@@ -225,7 +269,15 @@ def handleSoftmax (op rows : String) : String :=
 
 def handle (toks : List String) : String :=
   match toks with
-  | [op, "Softmax", _, rows] => handleSoftmax op rows
+  | [op, "Softmax", nd, rows] => handleSoftmax op nd rows
+  | ["lookup", name] => (match lookupClass name with
+    | .ok c => s!"ok {fmtList c.ctorArgs} {fmtList c.params} {fmtList c.constants}"
+    | .error e => "err " ++ errName e)
+  | ["route", name, key] => (match lookupClass name with
+    | .ok c => (match route c key with
+      | .ctor => "ctor" | .param => "param" | .const => "const" | .ignored => "ignored")
+    | .error e => "err " ++ errName e)
+  | ["catalogue"] => fmtList (catalogue.map (·.name))
   | [op, cls, ps, xs] => handleScalar op cls ps xs none
   | ["cens", cls, ps, xs, c] => handleScalar "cens" cls ps xs (some c)
   | _ => "bad-op"
